@@ -18,7 +18,7 @@ import (
 
 func init() {
 	register("C05",
-		"WRAP: ClientHandshake/ServerHandshake hand gRPC the *NoiseGrpcConn itself (never the raw transport), and NoiseGrpcConn declares its own Read/Write, so gRPC can only write through the encrypting connection. TAINT-WIRE (relay level): the buffer given to NoiseGrpcConn.Write / NoiseConn.Write flows only into WriteMessage (plus len/slicing); the only functions in mailbox that call Write on a transport-typed value are Machine.Flush and the handshake writer, whose arguments are ciphertext (C08/C16 rules, re-checked here); connKit.Write wraps exactly its argument into one MsgData. FRAME: one Noise write = one control message = one GBN message: connKit.Write performs exactly one SendControlMsg outside any loop and reports len(b) only after it succeeded; SendControlMsg is one Serialize + one gbn Send of exactly those bytes; ReceiveControlMsg is one gbn Recv + Deserialize of exactly those bytes; connKit.Read buffers the whole payload. RDC-1/2/3 (as C15) for every Read/Write method of mailbox. LOCKBAL: in mailbox no mutex is re-locked on a path that may still hold it and no function returns holding a mutex without a deferred unlock (the retry loops of the transport callbacks cannot wedge themselves). Not decided (runtime): delivery and completion under relay drops / stream re-creation and the interleavings of the four endpoint goroutines - no static argument in reach bounds those.",
+		"WRAP: ClientHandshake/ServerHandshake hand gRPC the *NoiseGrpcConn itself (never the raw transport), and NoiseGrpcConn declares its own Read/Write, so gRPC can only write through the encrypting connection. TAINT-WIRE (relay level): the buffer given to NoiseGrpcConn.Write / NoiseConn.Write flows only into WriteMessage (plus len/slicing); the only functions in mailbox that call Write on a transport-typed value are Machine.Flush and the handshake writer, whose arguments are ciphertext (C08/C16 rules, re-checked here); connKit.Write wraps exactly its argument into one MsgData. FRAME: one Noise write = one control message = one GBN message: connKit.Write performs exactly one SendControlMsg outside any loop and reports len(b) only after it succeeded; SendControlMsg is one Serialize + one gbn Send of exactly those bytes; ReceiveControlMsg is one gbn Recv + Deserialize of exactly those bytes; connKit.Read buffers the whole payload. RDC-1/2/3 (as C15) for every Read/Write method of mailbox. LOCKBAL: in mailbox no mutex is re-locked on a path that may still hold it and no function returns holding a mutex without a deferred unlock (the retry loops of the transport callbacks cannot wedge themselves). RETRY: ConnectSend/ConnectReceive of every client transport and the server's create*MailBox functions never report success without installing a freshly created stream, and in the four transport callbacks a failed stream operation reaches the next attempt only through the re-create call (a dead stream is never retried forever). DUPLEX: the read path (ReadMessage/ReadHeader/ReadBody) and the write path (WriteMessage/Flush) of the record layer touch disjoint Machine fields, Encrypt on the write path seals into a fresh buffer, and NoiseGrpcConn.Read/Write do not write fields the other uses - which is what makes their concurrent execution under the read lock sound. Not decided (runtime): delivery and completion under relay drops / stream re-creation and the interleavings of the four endpoint goroutines - no static argument in reach bounds those.",
 		[]string{"gRPC writes only through the net.Conn returned by the TransportCredentials handshake"},
 		runC05)
 	register("C11",
@@ -236,6 +236,8 @@ func runC05(c *Checker) {
 	c.floor("RDC-2", 5)
 	// the retry loops of the transport callbacks must not wedge on their own mutexes
 	ruleLOCKBAL(c, targetMbox)
+	ruleRETRY(c)
+	ruleDUPLEX(c)
 }
 
 // ruleLOCKBAL: in package pkg no mutex is acquired while it may already be held by the same
